@@ -62,9 +62,12 @@ def fam(label):
     return 'dir'
 
 
-def key_names(label, n):
+def key_names(label, n, long=False):
     if label == 'dir-src':
         return ['k%da' % i for i in range(n)]
+    if long:
+        # names of about 230 characters: legal file names, near the length where names get hashed
+        return ['key%d' % i + 'L' * 225 for i in range(n)]
     return ['key%d' % i for i in range(n)]
 
 
@@ -72,7 +75,7 @@ def generate(rng, prop, tier):
     label = rng.choice(LABELS)
     f = fam(label)
     nkeys = rng.randint(2, 5)
-    keys = key_names(label, nkeys + 14)
+    keys = key_names(label, nkeys + 14, long=rng.chance(0.08))
     pre = [{'op': 'pre', 'k': keys[i], 'v': 'init-%d' % i} for i in range(rng.randint(0, nkeys))]
     prekeys = [p['k'] for p in pre]
     long_lived = label == 'sql-file' and rng.chance(0.3)
